@@ -1,18 +1,33 @@
 #!/bin/bash
-# verify_demos.sh [jobs]: every seeded demo.py must PASS on the current clean tree (scratch copies of /repo; nothing touches /repo)
+# verify_demos.sh [jobs]: on scratch copies of the CURRENT /repo tree, every seeded demo.py must PASS on the clean tree and FAIL with
+# its patch applied (a seed whose demo passes with the patch has been neutralised by a later fix). Nothing touches /repo.
 jobs=${1:-4}
 cd "$(dirname "$0")/.."
+V=$(pwd)
 base=$(mktemp -d -p /dev/shm demos_XXXX)
-ls -d seeded/*/ | sed 's,/$,,' | while read d; do [ -f $d/demo.py ] && echo $d; done > $base/list
+ls -d seeded/*/ | sed 's,/$,,' | while read d; do [ -f $d/demo.py ] && ! grep -q '"neutralised"' $d/meta.json && echo $d; done > $base/list
 split -n l/$jobs $base/list $base/part_
 for part in $base/part_*; do
   (
     S=$base/$(basename $part)_repo
     rsync -a --exclude .git /repo/ $S/
+    cd $S; git init -q; git add -A >/dev/null 2>&1; git -c user.email=a@b -c user.name=x commit -qm base >/dev/null
+    mkdir -p $S/_seed/change_1; touch $S/_seed/__init__.py $S/_seed/change_1/__init__.py
+    echo "_seed/" >> $S/.git/info/exclude
     while read d; do
-      PYTHONPATH=$S:$S/spil_hamlet_conf timeout 600 /venv/bin/python $d/demo.py > $base/out.$(basename $d) 2>&1
+      # (demos find "their" worktree two levels above their own file, as where the sub-agents wrote them)
+      cp $V/$d/demo.py $S/_seed/change_1/demo.py
+      PYTHONPATH=$S:$S/spil_hamlet_conf timeout 600 /venv/bin/python $S/_seed/change_1/demo.py > /dev/null 2>&1
       c=$?
       [ $c -ne 0 ] && echo "DEMO FAILS ON CLEAN TREE: $d (exit $c)"
+      if git apply $V/$d/patch.diff 2>/dev/null; then
+        PYTHONPATH=$S:$S/spil_hamlet_conf timeout 600 /venv/bin/python $S/_seed/change_1/demo.py > /dev/null 2>&1
+        c=$?
+        [ $c -eq 0 ] && echo "DEMO PASSES WITH THE CHANGE (neutralised?): $d"
+        git checkout -q -- . ; git clean -fdq
+      else
+        echo "PATCH DOES NOT APPLY: $d"
+      fi
     done < $part
   ) &
 done
